@@ -540,7 +540,7 @@ fn replace_range(doc: &mut String, rng: lsp::Range, raw_new: &str) -> STDRESULT 
             found_start = true;
         }
         if !found_start {
-            start_char += line.chars().count() as u32 + 1;
+            start_char += line.len() as u32 + 1; // bytes, like the columns tree-sitter reports
         }
         if rng.end.line == curr_line {
             end_char += rng.end.character;
@@ -548,7 +548,7 @@ fn replace_range(doc: &mut String, rng: lsp::Range, raw_new: &str) -> STDRESULT 
             break;
         }
         if !found_end {
-            end_char += line.chars().count() as u32 + 1;
+            end_char += line.len() as u32 + 1;
         }
         curr_line += 1;
     }
